@@ -104,7 +104,7 @@ def handleWs (script : String) (o : List String) : String :=
     let route := (kvGet o "route").getD "none"
     let c : WsCase := {
       res := res, grpcws := b1 (kvGet o "g"), tag := parseTag ((kvGet o "tag").getD "none"), fin := fin,
-      hasTimeout := b1 (kvGet o "to"),
+      hasTimeout := b1 (kvGet o "to"), clientInterfered := b1 (kvGet o "ci"),
       routeOK := route == "ok", routerHit := (kvGet o "rt").getD "none" != "none", cs := b1 (kvGet o "cs"),
       body := parseBody ((kvGet o "bp").getD "none"), script := scr,
       handshake := natOr (kvGet o "hs") 0, handshakeWF := b1 (kvGet o "hwf"),
@@ -228,7 +228,7 @@ def handleCore : List String → List String → String
   | ["fkey", hk, hp], out =>
     match parseHex hk, parseHex hp with
     | some k, some p =>
-      let m := (filterKey k p).map (fun (k1, isBin) => s!"k={toHex (toLowerAscii k1)} bin={b01 isBin}")
+      let m := (filterKey k p).map (fun (k1, isBin) => s!"key {toHex (toLowerAscii k1)} bin={b01 isBin}")
       cmp (" ".intercalate out) m "fkey"
     | _, _ => "BAD hex"
   | ["wserr", kind], out =>
